@@ -16,6 +16,7 @@ type State struct {
 	mem   map[string]Term // memory / ghost name -> current term
 	ov    map[ssa.Value]*Val
 	epoch int // 0: untouched memories equal their initial value; else: see Ctx.epochMem
+	nonnil map[string]bool // references already checked non-nil on this path
 	br    []brTag // branch stack: reach == And(br[top].parent, br[top].cond) while untouched
 }
 
@@ -25,6 +26,12 @@ func (s *State) clone() *State {
 	n := &State{reach: s.reach, mem: make(map[string]Term, len(s.mem)), epoch: s.epoch, br: append([]brTag(nil), s.br...)}
 	for k, v := range s.mem {
 		n.mem[k] = v
+	}
+	if s.nonnil != nil {
+		n.nonnil = make(map[string]bool, len(s.nonnil))
+		for k := range s.nonnil {
+			n.nonnil[k] = true
+		}
 	}
 	if s.ov != nil {
 		n.ov = make(map[ssa.Value]*Val, len(s.ov))
@@ -204,7 +211,109 @@ func (c *Ctx) memAxioms(m Term, valSort string, bound int, name string) {
 }
 
 func (c *Ctx) memSet(st *State, name string, t Term) {
-	st.mem[name] = c.Def(name, t)
+	d := c.Def(name, t)
+	st.mem[name] = d
+	if strings.HasPrefix(t.S, "(store ") {
+		if base, addr, val, ok := splitStore(t); ok {
+			c.storeOf[d.S] = storeRec{base, addr, val}
+		}
+	}
+}
+
+type storeRec struct{ base, addr, val Term }
+
+type copyRec struct{ e, dBase, dOff, n, sBase, sOff Term }
+
+// splitStore: (store base addr value) -> base, addr
+func splitStore(t Term) (Term, Term, Term, bool) {
+	body := t.S[len("(store ") : len(t.S)-1]
+	var parts []string
+	depth, start := 0, 0
+	for i, ch := range body {
+		switch ch {
+		case '(':
+			depth++
+		case ')':
+			depth--
+		case ' ':
+			if depth == 0 {
+				parts = append(parts, body[start:i])
+				start = i + 1
+			}
+		}
+	}
+	parts = append(parts, body[start:])
+	if len(parts) != 3 {
+		return Term{}, Term{}, Term{}, false
+	}
+	return raw(parts[0], t.Sort), raw(parts[1], SRef), raw(parts[2], ""), true
+}
+
+// refClass classifies an address syntactically: 1 = freshly allocated object
+// (concrete root >= birthBase), -1 = object allocated before entry (rooted at an
+// input reference or a global), 0 = unknown.
+func (c *Ctx) refClass(addr Term) int {
+	t := addr
+	if st, has := c.refStruct[addr.S]; has {
+		t = st
+	}
+	if c.oldRefs[t.S] {
+		return -1
+	}
+	root, _, ok := splitRef(t)
+	if !ok {
+		return 0
+	}
+	var n int64
+	if _, err := fmt.Sscanf(root.S, "%d", &n); err == nil && !strings.HasPrefix(root.S, "(") {
+		if n >= birthBase {
+			return 1
+		}
+		return -1
+	}
+	if strings.HasPrefix(root.S, "(rroot ") {
+		inner := root.S[7 : len(root.S)-1]
+		if c.oldRefs[inner] {
+			return -1
+		}
+		return c.refClass(raw(inner, SRef))
+	}
+	return 0
+}
+
+// distinctAddr: syntactically certain that two addresses differ.
+func (c *Ctx) distinctAddr(a, b Term) bool {
+	ca, cb := c.refClass(a), c.refClass(b)
+	if ca*cb == -1 {
+		return true
+	}
+	ta, tb := a, b
+	if st, has := c.refStruct[a.S]; has {
+		ta = st
+	}
+	if st, has := c.refStruct[b.S]; has {
+		tb = st
+	}
+	ra, pa, oka := splitRef(ta)
+	rb, pb, okb := splitRef(tb)
+	if oka && okb && ra.S == rb.S && strings.HasPrefix(pa.S, "(psub ") && strings.HasPrefix(pb.S, "(psub ") {
+		ia, ib := strings.LastIndex(pa.S, " "), strings.LastIndex(pb.S, " ")
+		if pa.S[:ia] == pb.S[:ib] && pa.S[ia:] != pb.S[ib:] {
+			return true // same parent, different field
+		}
+	}
+	return false
+}
+
+// skipStores walks back over stores that cannot affect a read at addr.
+func (c *Ctx) skipStores(m Term, addr Term) Term {
+	for {
+		rec, ok := c.storeOf[m.S]
+		if !ok || !c.distinctAddr(rec.addr, addr) {
+			return m
+		}
+		m = rec.base
+	}
 }
 
 func (c *Ctx) newObj() Term {
@@ -307,7 +416,13 @@ func (c *Ctx) cellRead(st *State, name, vs string, addr Term) Term {
 	if arr, idx, ok := c.splitElem(addr); ok {
 		return c.elemRead(st, name, vs, arr, idx)
 	}
-	flat := Select(c.memGet(st, name, vs), addr)
+	fm := c.skipStores(c.memGet(st, name, vs), addr)
+	flat := Select(fm, addr)
+	if vs == SRef && st.epoch == 0 {
+		if init, ok := c.memInit[name]; ok && init.S == fm.S {
+			c.oldRefs[flat.S] = true // references stored in the initial heap denote objects allocated before entry
+		}
+	}
 	c.groundHeap(name, addr, vs)
 	if c.isStructural(addr) {
 		return flat
@@ -318,9 +433,16 @@ func (c *Ctx) cellRead(st *State, name, vs string, addr Term) Term {
 
 func (c *Ctx) elemRead(st *State, name, vs string, arr, idx Term) Term {
 	en := "E" + name[1:]
-	m := c.elemGet(st, en, vs)
+	m := c.skipStores(c.elemGet(st, en, vs), arr)
 	c.groundElem(en, arr, idx, vs)
-	return Select(Select(m, arr), idx)
+	c.groundCopies(m, idx, vs)
+	r := Select(Select(m, arr), idx)
+	if vs == SRef && st.epoch == 0 {
+		if init, ok := c.memInit[en]; ok && init.S == m.S {
+			c.oldRefs[r.S] = true
+		}
+	}
+	return r
 }
 
 func (c *Ctx) elemGet(st *State, en, vs string) Term {
@@ -515,6 +637,20 @@ func (c *Ctx) mergeStates(sts []*State) *State {
 	for _, s := range live {
 		rs = append(rs, s.reach)
 	}
+	for k := range live[0].nonnil {
+		all := true
+		for _, s := range live[1:] {
+			if !s.nonnil[k] {
+				all = false
+			}
+		}
+		if all {
+			if out.nonnil == nil {
+				out.nonnil = map[string]bool{}
+			}
+			out.nonnil[k] = true
+		}
+	}
 	if !diamond {
 		out.reach = c.Def("reach", Or(rs...))
 	}
@@ -540,10 +676,15 @@ func (c *Ctx) mergeStates(sts []*State) *State {
 			}
 		}
 		if !same {
+			var parts []Term
+			for _, s := range live {
+				parts = append(parts, get(s))
+			}
 			for i := len(live) - 2; i >= 0; i-- {
 				acc = Ite(live[i].reach, get(live[i]), acc)
 			}
 			acc = c.Def(k, acc)
+			c.mergeOf[acc.S] = parts
 		}
 		out.mem[k] = acc
 	}
@@ -581,4 +722,42 @@ func (s *State) adopt(r *State) {
 		s.br = nil
 	}
 	s.reach, s.mem, s.epoch = r.reach, r.mem, r.epoch
+	s.nonnil = r.nonnil
+}
+
+// groundCopies instantiates, at index idx, the defining axiom of every
+// symbolic-range copy found in the store chain of an element memory.
+func (c *Ctx) groundCopies(m Term, idx Term, vs string) {
+	if c.inQuant > 0 {
+		c.needQuantHeap = true
+		return
+	}
+	for depth := 0; depth < 32; depth++ {
+		if parts, isMerge := c.mergeOf[m.S]; isMerge {
+			for _, p := range parts {
+				c.groundCopies(p, idx, vs)
+			}
+			return
+		}
+		rec, ok := c.storeOf[m.S]
+		if !ok {
+			return
+		}
+		if cr, isCopy := c.copyRecs[rec.val.S]; isCopy {
+			key := "gc|" + rec.val.S + "|" + idx.S
+			if !c.assumed[key] {
+				c.assumed[key] = true
+				na := raw(rec.val.S, SArr(c.idxSort, vs))
+				inWin := And(c.idxLe(cr.dOff, idx), c.idxLt(idx, c.idxAdd(cr.dOff, cr.n)))
+				srcIdx := c.idxAdd(cr.sOff, c.idxSub(idx, cr.dOff))
+				src := Select(Select(cr.e, cr.sBase), srcIdx)
+				c.assumes = append(c.assumes, Assume{declPos: len(c.decls), why: "copy of a symbolic range (instance)",
+					t: Eq(Select(na, idx), Ite(inWin, src, Select(Select(cr.e, cr.dBase), idx)))})
+				// the source may itself be a copied array
+				c.groundCopies(cr.e, srcIdx, vs)
+				c.groundCopies(cr.e, idx, vs)
+			}
+		}
+		m = rec.base
+	}
 }
